@@ -89,7 +89,10 @@ Print Assumptions C15_projection_unique.
    equations (normal_eqs_hold ... = true, a closed boolean that the kernel evaluates on every
    correspondence case).  MISSING: correctness of the Gauss-Jordan elimination (solve_beta).
    That transform is ONE affine map (training means f_mean and coefficients f_beta) whatever data it is
-   applied to holds by construction: transform_split uses only f and its argument. *)
+   applied to holds by construction: transform_split uses only f and its argument.
+   UPDATE (second part below): the missing piece is now proved (C15_solve_beta_correct) and the full statement
+   is C15_transform_is_fit_transform; the affine form is C15_transform_affine / _rowwise / _through_mean_beta.
+   This theorem is kept unchanged. *)
 Theorem C15_transform_is_fit_transform_partial :
   forall (n : nat) (names ids : list Z) (alpha : Q) (X Xuse Xs : mat) (f : fitted),
   wf n X -> length names = length X -> split names ids X = Some (Xuse, Xs) ->
@@ -144,7 +147,9 @@ Print Assumptions C15_transform_is_fit_transform.
 (* transform_affine: on ANY data X (n rows, same columns) cell (i, j) of the output is
      alpha * (u - (srow - mean) . beta[:, j]) + (1 - alpha) * u
    with u = X_use[i, j], srow = X_sensitive[i, :] and the STORED (training) means and coefficients of f;
-   one output column per non-sensitive column *)
+   one output column per non-sensitive column.  (vsub / dot stop at the shorter argument: for an f returned by
+   fit on data with the same ids, C15_fit_spec gives length f_mean = length f_beta = number of sensitive
+   columns = length (row i Xs), so nothing is cut off; numpy raises on any other shape.) *)
 Theorem C15_transform_affine :
   forall (n : nat) (names ids : list Z) (f : fitted) (alpha : Q) (X Xuse Xs out : mat),
   wf n X -> length names = length X ->
